@@ -13,7 +13,7 @@ if ! patch -p1 --quiet < "$seed/patch.diff"; then echo "PATCH-DOES-NOT-APPLY"; r
 echo "== demo on patched sources"; PYTHONPATH="$d/repo/src" timeout 300 /venv/bin/python -W ignore "$seed/demo.py" > "$d/demo_patched.out" 2>&1; echo "exit=$?"; tail -3 "$d/demo_patched.out" | cut -c1-300
 if [ $runtests = 1 ]; then
   echo "== repository suite on patched sources"
-  PYTHONPATH="$d/repo/src" /venv/bin/python -m pytest -q -p no:cacheprovider --no-cov --timeout=900 --deselect "tests/test_create.py::test_roundtrip" > "$d/tests.out" 2>&1; echo "pytest exit=$?"; tail -2 "$d/tests.out"
+  mkdir -p "$d/tmp"; TMPDIR="$d/tmp" PYTHONPATH="$d/repo/src" /venv/bin/python -m pytest -q -p no:cacheprovider --no-cov --timeout=900 --deselect "tests/test_create.py::test_roundtrip" > "$d/tests.out" 2>&1; echo "pytest exit=$?"; tail -2 "$d/tests.out"
 fi
 for id in "$@"; do
   echo "== check $id (quick) on patched sources"
